@@ -41,6 +41,10 @@ META = {
             "sub-sampled / longer estimate / unmatched stamps / non-zero offset / base time 0..1.3e9, every error type, align modes "
             "none / origin / align / scale / align+scale, frame and distance pairing, all/consecutive, rpair. A case is non-trivial when "
             "it has >= 2 points/poses and is not the identity; distinct by (stream, dtype, sizes, interval/options, generator kind).",
+    "hardening": "a deterministic corner corpus + exhaustive length sweeps run first (seed-independent); call histories varying one "
+                 "per-call argument at a time with a bit-exact repeat; in-place updates of caller tensors between calls (stale reads); "
+                 "non-contiguous / embedded / expanded / aliased arguments with whole-buffer purity; mixed-regime batches compared item "
+                 "by item with single-item calls; per-fibre / per-item tolerances; every implementation misbehaviour is a failure",
     "trusted": [
         "torch.arange / searchsorted / min / median / std semantics (external kernels, used through their contracts)",
         "svdstf (property C17) is a contract parameter: the model receives the transform the real svdstf returned; its optimality "
